@@ -1,9 +1,12 @@
 import RodbusModel.Props.C10
+import RodbusModel.Lemmas.ClientStale
 /-
   C11  The client keeps at most one request outstanding, transmits requests in submission order and
   stamps each TCP request with a 16-bit transaction id that advances by one for every request taken
   from its queue (wrapping after 65535).  A reply whose transaction id differs from the outstanding
   request's is discarded, and frames arriving while no request is outstanding are dropped.
+  A frame that was completely received before a request is transmitted never becomes its result
+  (`FramedReader::discard_buffered_frames`, called between formatting and writing the request).
 
   Model and abstraction as in Props/C10.  All history lists have the newest entry first:
   `sent` (rid, tx id, frame) of every request written, `dequeued` (rid, tx id) of every request
@@ -81,10 +84,12 @@ theorem sent_frame {σ : Type} (F : Framing σ) (s : State σ) (m : Nat) (r : Re
   · rename_i pdu hp
     split
     · left; exact finish_sent _ _ _ _
-    · right
-      refine ⟨pdu, hp, ?_⟩
-      generalize isLatest _ m = b
-      cases b <;> rfl
+    · split
+      · left; exact finish_sent _ _ _ _
+      · right
+        refine ⟨pdu, hp, ?_⟩
+        generalize isLatest _ m = b
+        cases b <;> rfl
 where
   finish_sent (s : State σ) (m : Nat) (r : Req) (res : Res) : (finish s m r res).sent = s.sent := by
     unfold finish afterRequest
@@ -142,6 +147,54 @@ theorem mismatch_discarded_at_deadline {σ : Type} (F : Framing σ) (s s' t' : S
     rw [hr] at this
     exact this
 
+/-- `stale_frame_never_accepted`.  When a request has been written (for whatever resolution of the
+    scheduler's polling order: `startRequest` does not consult it), the read buffer holds no
+    complete frame any more: every frame that had been received completely before the request was
+    transmitted — while no request was outstanding, or behind the reply of the previous request
+    whatever tx id it carries — has been dropped by `discard_buffered_frames`.  Without new bytes
+    from the transport the reader reports nothing, so the response loop cannot complete the request
+    from what was received earlier.  (`DiscardComplete F`: the discard loop runs to the parser's
+    `Ok(None)`; proved for MBAP in `mbap_discardComplete`.) -/
+theorem stale_frame_never_accepted {σ : Type} (F : Framing σ) (hF : DiscardComplete F)
+    (s : State σ) (m : Nat) (r : Req) (m' : Nat) (r' : Req) (tx dl : Nat)
+    (h : (startRequest F s m r).pos = .inflight m' r' tx dl) :
+    let t := startRequest F s m r
+    (∀ fuel, readerPoll F fuel t.pst t.rb [] = (.blocked, t.pst, t.rb, []))
+      ∧ ((getMock t m').rx = [] → t.now < dl → tickInflight F t m' r' tx dl = none) := by
+  intro t
+  have hpar := startRequest_reader F hF s m r m' r' tx dl h
+  refine ⟨fun fuel => readerPoll_blocked F fuel _ _ hpar, ?_⟩
+  intro hrx hnow
+  have hpoll : (pollReader F t m').1 = .blocked := by
+    unfold pollReader
+    simp only [hrx]
+    rw [readerPoll_blocked F _ _ _ hpar]
+  generalize hpr : pollReader F t m' = pr at hpoll
+  obtain ⟨rr, s'⟩ := pr
+  simp only [] at hpoll
+  subst hpoll
+  rw [tickInflight_before F t s' m' r' tx dl .blocked hpr hnow]
+  simp [hrx]
+
+/-- the same for MBAP without hypothesis -/
+theorem stale_frame_never_accepted_mbap (s : State Mbap.PState) (m : Nat) (r : Req) (m' : Nat)
+    (r' : Req) (tx dl : Nat) (h : (startRequest mbap s m r).pos = .inflight m' r' tx dl) :
+    let t := startRequest mbap s m r
+    (∀ fuel, readerPoll mbap fuel t.pst t.rb [] = (.blocked, t.pst, t.rb, []))
+      ∧ ((getMock t m').rx = [] → t.now < dl → tickInflight mbap t m' r' tx dl = none) :=
+  stale_frame_never_accepted mbap mbap_discardComplete s m r m' r' tx dl h
+
+/-- malformed bytes found in the buffer when a request is about to be written fail that request
+    with the framing error (nothing is transmitted; by `error_meaning_transport` the session ends) -/
+theorem stale_garbage_fails_request {σ : Type} (F : Framing σ) (s : State σ) (m : Nat) (r : Req)
+    (pdu : Bytes) (res : Res) (st' : σ) (rb' : RB) (he : encodeRequest r.req = .ok pdu)
+    (hd : discardBuffered F (discardFuel s.rb) s.pst s.rb = (some res, st', rb')) :
+    (startRequest F s m r).sent = s.sent ∧ (∃ e, res = frameErrRes e)
+      ∧ ∃ s1, startRequest F s m r = finish s1 m r res := by
+  refine ⟨?_, discardBuffered_err F _ _ _ res _ hd, ?_⟩
+  · unfold startRequest; simp only [he, hd]; exact sent_frame.finish_sent _ _ _ _
+  · unfold startRequest; simp only [he, hd]; exact ⟨_, rfl⟩
+
 /-- `idle_dropped`.  A frame handed to the loop while no request is outstanding is dropped: nothing
     is logged, nothing changes except that the bytes are consumed. -/
 theorem idle_dropped {σ : Type} (F : Framing σ) (s s' : State σ) (m : Nat) (f : Frame)
@@ -184,19 +237,32 @@ example :
        .submit .R 0 (rc "a" .future 10), .advance 10]).log
       = [.done "a" .future .timeout 10, .tx [0, 0, 0, 0, 0, 6, 1, 1, 0, 0, 0, 8]] := by decide
 
-/-- KNOWN RACE (reported as a finding).  Bytes that are delivered together with the matching reply
-    of request `a` stay in the read buffer.  With request `b` already queued, `ClientLoop::poll`
-    selects between the reader and the queue; `tokio::select!` polls them in random order.
-    If the reader is polled first the buffered frame is dropped as "received while idle"
-    (coin `true`); if the queue is polled first (coin `false`) `b` is transmitted with tx id 1 and
-    the frame, which arrived before `b` was sent and carried an id different from the then
-    outstanding one, becomes the result of `b`.  Both outcomes are observed on the implementation. -/
+/-- FORMER RACE (finding, fixed by `discard_buffered_frames`).  Bytes delivered together with the
+    matching reply of request `a` stay in the read buffer; with `b` already queued,
+    `ClientLoop::poll` selects between the reader and the queue in random order.  Before the fix
+    the second frame (tx id 1, received while `a` with tx id 0 was outstanding) became the result
+    of `b` when the queue was polled first.  Now both orders give the same result: the frame is
+    dropped (as "received while idle" or by the discard before `b` is written) and `b` stays in
+    flight. -/
 example :
     let script := [Step.newSession, .submit .R 0 (rc "a" .future 1000),
       .submit .R 0 (rc "b" .future 1000),
       .rx (.data [0, 0, 0, 0, 0, 4, 1, 1, 1, 0x55, 0, 1, 0, 0, 0, 4, 1, 1, 1, 0xFF])]
     (doneIds (runState mbap (State.init mbap 16 0 ⟨0, 0, 0⟩ [true]) script).log = ["a"])
-      ∧ (doneIds (runState mbap (State.init mbap 16 0 ⟨0, 0, 0⟩ [false]) script).log = ["b", "a"]) := by
+      ∧ (doneIds (runState mbap (State.init mbap 16 0 ⟨0, 0, 0⟩ [false]) script).log = ["a"])
+      ∧ inflightIds (runState mbap (State.init mbap 16 0 ⟨0, 0, 0⟩ [false]) script).pos = ["b"] := by
+  decide
+
+/-- garbage buffered behind the reply of `a`: the next request fails with the framing error when
+    the queue is polled first, the session ends with the framing error either way -/
+example :
+    let script := [Step.newSession, .submit .R 0 (rc "a" .future 1000),
+      .submit .R 0 (rc "b" .future 1000),
+      .rx (.data [0, 0, 0, 0, 0, 4, 1, 1, 1, 0x55, 0, 1, 0, 1, 0, 4, 1])]
+    ((runState mbap (State.init mbap 16 0 ⟨0, 0, 0⟩ [true]) script).log.take 1
+        = [.fin .badFrame 0])
+      ∧ ((runState mbap (State.init mbap 16 0 ⟨0, 0, 0⟩ [false]) script).log.take 2
+        = [.fin .badFrame 0, .done "b" .future (.bf .proto) 0]) := by
   decide
 
 end Example
